@@ -56,6 +56,10 @@ def main(tier: str) -> int:
         for hl, off in (variants if tier == "thorough" else (variants[wi % 3],)):
             configs.append(("MLPEARegressor", lambda wo=wo, hl=hl, off=off: MLPEARegressor(n_iter=3, pop_size=8, hidden_layers=hl, offset=off, weights_optimizer=wo, weights_optimizer_args={"keep_history": True}, random_state=seed), "reg", None))
             configs.append(("MLPEAClassifier", lambda wo=wo, hl=hl, off=off: MLPEAClassifier(n_iter=3, pop_size=8, hidden_layers=hl, offset=off, weights_optimizer=wo, weights_optimizer_args={"keep_history": True}, random_state=seed), "clf", 3))
+    # degenerate population sizes that the weight optimizers accept: the estimator must train with exactly that many individuals
+    for wo, ps in ((O.SHADE, 1), (O.SHADE, 2), (O.SHADE, 3), (O.DifferentialEvolution, 3), (O.jDE, 3), (O.SHAGA, 2)):
+        configs.append(("MLPEARegressor", lambda wo=wo, ps=ps: MLPEARegressor(n_iter=3, pop_size=ps, hidden_layers=(2,), weights_optimizer=wo, weights_optimizer_args={"keep_history": True}, random_state=seed), "reg", None))
+    configs.append(("MLPEAClassifier", lambda: MLPEAClassifier(n_iter=3, pop_size=3, hidden_layers=(2,), weights_optimizer=O.SHADE, weights_optimizer_args={"keep_history": True}, random_state=seed), "clf", 3))
     # generational weight optimizers WITHOUT elitism: the best net may be found early and lost again
     for rep in range(6 if tier == "quick" else 30):
         for wo in (O.GeneticAlgorithm, O.SelfCGA):
